@@ -14,7 +14,7 @@ from vlib import core
 from vlib.core import cz, cnat, cbool, copt, clist
 
 MANIFEST = dict(
-    text='Theorems (Coq, all inputs): the recursion guard, default frame limit, default depth and truncation marker of einfo.Traceback as translated from einfo.py on every run equal the model; the stand-in chain has at most recursionlimit//8 + 3 nodes and is the first limit+2 live frames followed by the marker iff the live chain is longer; for every exception class that reproduces itself from its args and every n >= 1, n pickle round trips of an ExceptionInfo keep type, exception class, args, attributes, traceback text and tb chain, and nothing changes after the second; the same stated for picklable records only (every record along the chain is again picklable), an unpicklable record is never sent; COUNTERFACTUAL (switch value false = the tree before the repair of D20): MaybeEncodingError args are re-repr()ed on every round trip, for ever; the body of MaybeEncodingError.__reduce__ and of its rebuild function, as matched on this run, returns a constructed object unchanged; MAIN CLAUSE: a task raising a picklable exception (any class) yields ACK + exactly one READY(ok=False) carrying the record with type, wrapped exception, text and the copied traceback (<= limit+3 nodes), and for every k >= 1 the k-fold round trip of that record exists, is picklable and has exactly that type, class, args, attributes, text and chain; a task raising an unpicklable exception is answered by exactly one READY carrying the MaybeEncodingError record, which survives every k >= 1 round trips; a result whose READY cannot be sent yields exactly one READY carrying a MaybeEncodingError record and the worker loop continues; with a working pipe every accepted task gets exactly one READY. Correspondence: real exceptions x argument tuples x traceback depths 1..300 (thorough ..900 and RecursionError) x 1..5 pickle round trips, Traceback(max_frames=m), MaybeEncodingError(a, b), and the real Worker.workloop in-process over scripted requests with a really-pickling outq.',
+    text='Theorems (Coq, all inputs): the recursion guard, default frame limit, default depth and truncation marker of einfo.Traceback as translated from einfo.py on every run equal the model; BUILDING THE RECORD IS TOTAL: how every attribute of the stand-ins _Frame/_Code/Traceback is read from the live object (literal, obj.attr, obj.ns.get(k[,d]), obj.ns[k], try/except KeyError) is translated on every run, and executed on live frames whose f_globals/f_locals are arbitrary dicts (code run by exec/eval: no __name__, no __file__, no __loader__) these reads never raise and build the stand-in with the (file, name, line) triple verbatim, __file__ = live value or "__main__", __name__ = live value or None; Traceback(tb) on any non-empty live traceback returns a chain whose (file, name, line) part is the chain of the depth theorems, and a task raising a picklable exception through such frames yields ACK + one READY carrying the record; the stand-in chain has at most recursionlimit//8 + 3 nodes and is the first limit+2 live frames followed by the marker iff the live chain is longer; for every exception class that reproduces itself from its args and every n >= 1, n pickle round trips of an ExceptionInfo keep type, exception class, args, attributes, traceback text and tb chain, and nothing changes after the second; the same stated for picklable records only (every record along the chain is again picklable), an unpicklable record is never sent; COUNTERFACTUAL (switch value false = the tree before the repair of D20): MaybeEncodingError args are re-repr()ed on every round trip, for ever; the body of MaybeEncodingError.__reduce__ and of its rebuild function, as matched on this run, returns a constructed object unchanged; MAIN CLAUSE: a task raising a picklable exception (any class) yields ACK + exactly one READY(ok=False) carrying the record with type, wrapped exception, text and the copied traceback (<= limit+3 nodes), and for every k >= 1 the k-fold round trip of that record exists, is picklable and has exactly that type, class, args, attributes, text and chain; a task raising an unpicklable exception is answered by exactly one READY carrying the MaybeEncodingError record, which survives every k >= 1 round trips; a result whose READY cannot be sent yields exactly one READY carrying a MaybeEncodingError record and the worker loop continues; with a working pipe every accepted task gets exactly one READY. Correspondence: real exceptions x argument tuples x traceback depths 1..300 (thorough ..900 and RecursionError) x 1..5 pickle round trips, Traceback(max_frames=m), MaybeEncodingError(a, b), and the real Worker.workloop in-process over scripted requests with a really-pickling outq; the call chains run over ordinary functions and 14 unusual frame kinds (functions and module code run by exec/eval in fresh or odd globals, lambda, generator expression, generator, class body, under sorted(key=)/map, __traceback_hide__, raise-from and raise-in-handler chaining), with the live and stand-in frame namespaces compared (kind ns) and monitors for "building the record raised" and "a task outcome killed the worker".',
     note='Trusted: Coq kernel; translate/kernels/einfo.py (structural matcher + pykernel expression translator); harness/einfo_driver.py; pickle and the traceback module themselves (the text is an oracle; "the standard module can format the stand-in tb" is validated on every case, not proved); repr() of non-str objects is an oracle, repr of str is modelled for ASCII code points; exception classes whose constructor does not reproduce the object from its args are outside the statement. All theorems Closed under the global context.',
     technique='Coq proof over translator-regenerated kernel + differential correspondence + Gallina monitor on implementation traces',
     ref='5.12',
@@ -546,6 +546,8 @@ def correspond(res, n):
     judge(res, cases, outs, codes)
     # the expected finding D20 last, so that anything else is what gets reported first
     res.alarms.sort(key=lambda a: a['signature'] == SIG_D20)
+    # ... and "building the record raised" first: it is the cause of whatever else such a run shows
+    res.alarms.sort(key=lambda a: a['signature'] != 'C12:record-construction-raises')
 
     kinds, classes, depths, rounds, endings = {}, {}, {}, {}, {}
     trunc = unser = scripted = 0
